@@ -207,7 +207,7 @@ def _run_variant(job, work, vname, inc, res, seed):
     cmd = ['cbmc'] + cfiles + [os.path.join(RT, 'cbmc_rt.c')] + extra + ['-I', RT, '--function', 'harness',
            '--unwind', str(job.unwind), '--unwinding-assertions', '--drop-unused-functions', '--slice-formula', '--object-bits', '12',
            '-DVERIF_PROP_LO=%d' % job.prop[0], '-DVERIF_PROP_HI=%d' % job.prop[1]]
-    uws = dict({'nondet_u32.0': 6}); uws.update(job.unwindset)
+    uws = dict({'nondet_u32.0': 6, 'vmem_equal.0': 400, 'vmem_copy.0': 400}); uws.update(job.unwindset)
     for k, v in uws.items(): cmd += ['--unwindset', '%s:%d' % (k, v)]
     if job.ub: cmd += ['-DVERIF_UB', '--pointer-overflow-check', '--no-malloc-may-fail']
     else: cmd += ['--no-standard-checks']
